@@ -1,10 +1,11 @@
 \* C20 nonce extraction as coded at the pinned commit (first Content-Security-Policy line only, policy lists not split): TLC must reject HtmlGetsExactlyOneScript.
 CONSTANTS
   UnsupportedRule = "pass"
+  ParseRule = "scripting"
   CspRule = "firstline"
   LengthRule = "set"
   EmitCases = FALSE
 INIT Init
 NEXT Next
-INVARIANTS TypeOK PassThroughIsIdentity HtmlGetsExactlyOneScript LengthMatchesBody EncodingHeaderDescribesBody
+INVARIANTS TypeOK PassThroughIsIdentity HtmlGetsExactlyOneScript DocumentOnlyAppendedTo LengthMatchesBody EncodingHeaderDescribesBody
 CHECK_DEADLOCK FALSE
